@@ -251,6 +251,13 @@ func streamAr(g *core.G) {
 		}, "argen", args...)
 		// the harness's own writer must agree with the specification's (cross-check of the generator)
 		g.Emit("ar", core.Hex(string(buildAr(ms))))
+		if i%4 == 0 {
+			// bytes after the last member: a lone newline (which some writers leave), several, other bytes
+			tail := r.Pick([]string{"\n", "\n\n", " ", "x", "\n!", "\x00", "\n" + strings.Repeat(" ", 59), "`\n"})
+			t := core.Hex(string(buildAr(ms)) + tail)
+			g.Emit("ar", t)
+			g.Emit("law-arsafe", t)
+		}
 		// the same members with zero-filled numeric columns (as some archivers write them)
 		if len(ms) > 0 && i%3 == 0 {
 			zs := append([]arMember{}, ms...)
